@@ -412,7 +412,10 @@ class Machine:
             x = self.pool[var]
             f = getattr(np, ev["ufunc"])
             ins = [self.pool[a] if isinstance(a, str) else a for a in ev["args"]]
-            res = f(*ins, out=x)
+            if ev.get("where") is not None:
+                res = f(*ins, out=x, where=np.array(ev["where"], dtype=bool))
+            else:
+                res = f(*ins, out=x)
             out["same_object"] = res is x
         elif kind == "compute_chunk_sizes":
             x = self.pool[var]
